@@ -146,15 +146,21 @@ Definition c15_line (per : c15_periodic) (n : nat) (am : list nat) (nan : option
 
 (* the whole PolyCollection conversion from the corner longitudes of the faces (in the frame of
    the requested projection): the antimeridian table is computed from the shells, then the pipeline *)
+(* 'split' in the PolyCollection path (_build_corrected_polygon_shells): antimeridian.fix_polygon is
+   applied only to the polygons with an edge spanning >= 180; every other face keeps its own ring.
+   `pieces` says what fix_polygon would make of each face if it were applied. *)
+Definition c15_effective_pieces (m : nat) (faces : list (list Z)) (pieces : list nat) : list nat :=
+  map (fun p => if c15_crosses (c15_shell m (fst p)) then snd p else 1%nat) (combine faces pieces).
+
 Definition c15_poly_full (per : c15_periodic) (m : nat) (faces : list (list Z))
            (nan : option (list (bool * bool))) (pieces : list nat) (values : list Z) : c15_out :=
-  c15_poly per (length faces) (c15_am_faces m faces) nan pieces values.
+  c15_poly per (length faces) (c15_am_faces m faces) nan (c15_effective_pieces m faces pieces) values.
 
 (* the same conversion told face by face: how many output polygons a face contributes *)
 Definition c15_face_rows (per : c15_periodic) (crosses : bool) (pieces : nat) : nat :=
   match per with
   | C15Exclude => if crosses then 0%nat else 1%nat
-  | C15Split => pieces
+  | C15Split => if crosses then pieces else 1%nat
   | C15Ignore => 1%nat
   end.
 
@@ -177,7 +183,7 @@ Definition c15_poly_tables (per : c15_periodic) (m : nat) (faces : list (list Z)
      t_non_nan := match nan with Some fl => Some (c15_where_nonan (c15_delete am fl)) | None => None end;
      t_c2o := match per with
               | C15Exclude => c15_delete am (seq 0 (length faces))
-              | C15Split => c15_split_map pieces
+              | C15Split => c15_split_map (c15_effective_pieces m faces pieces)
               | C15Ignore => []
               end |}.
 
